@@ -43,6 +43,7 @@ type mctx struct {
 	rightful fx.Key
 	other    fx.Key // another deputy
 	hasOther bool
+	oldestTx *types.Transaction
 	branch   map[common.Hash]bool // tx hashes on the ancestor path of base (excluding base)
 	oldTx    *types.Transaction   // a tx from an ancestor (replay material)
 }
@@ -289,6 +290,10 @@ func (m *mctx) mutants(pairs int) []mutant {
 		remine("box-expiring-after-subtx", types.Transactions{B.Box(u1, types.Transactions{sub}, bt+500)})
 		inner := B.Box(u2, types.Transactions{B.Transfer(u2, u1.Addr, fx.LEMO(1), bt+700)}, bt+600)
 		remine("box-in-box", types.Transactions{B.Box(u1, types.Transactions{inner}, bt+500)})
+	}
+	if m.oldestTx != nil && m.oldestTx != m.oldTx {
+		// (as far back as the lifetime allows: empty blocks, a restart of the node may lie in between)
+		remine("replay-oldest-ancestor-tx", types.Transactions{m.oldestTx})
 	}
 	if m.oldTx != nil {
 		m.cl.G.U.Tx(m.oldTx)
@@ -558,6 +563,9 @@ func scenario(c *run.Ctx, idx int) {
 		default:
 			cands = cl.G.Next(t, cl.Head.Height()+1, r.Range(2, 6))
 		}
+		if bi >= 3 && !growth && r.Chance(1, 5) {
+			cands = nil // empty blocks belong to a chain too
+		}
 		if growth && bi == 2 {
 			for u := 0; u < 2; u++ {
 				k := cl.W.Users[u]
@@ -627,6 +635,9 @@ func scenario(c *run.Ctx, idx int) {
 				// a plain transfer executes again if it is not recognised as a replay
 				if otx.Type() == params.OrdinaryTx && len(otx.Data()) == 0 && otx.Expiration() >= uint64(base.Time()) && otx.Expiration()-uint64(base.Time()) <= uint64(params.MaxTxLifeTime) {
 					m.oldTx = otx
+					if m.oldestTx == nil {
+						m.oldestTx = otx
+					}
 				}
 			}
 		}
@@ -687,6 +698,21 @@ func scenario(c *run.Ctx, idx int) {
 		if cl.MustStabiliseSoon() || r.Chance(1, 3) {
 			if !cl.StabiliseAll() {
 				return
+			}
+			// the node under test restarts at a quiescent point: what it rebuilds from disk (the replay guard among it)
+			// decides about the following mutants; its accounts are cold (read through from disk) from here on
+			if bi >= 3 && r.Chance(1, 3) {
+				V.Reopen()
+				c.Stat("restarts_of_the_node_under_test", 1)
+				st := V.BC.StableBlock().Height()
+				for _, old := range cl.Chain {
+					if old.Height() > st {
+						if e := V.Insert(old, false); e != nil {
+							c.Note("restarted node rejects a block it had accepted: " + e.Error())
+							return
+						}
+					}
+				}
 			}
 		}
 	}
